@@ -1165,6 +1165,18 @@ func (s *UtxoStore) GetBindingHistoryDetail(tx mwdb.ReadTransaction, addrMgr *ke
 				})
 			continue
 		}
+		if mHash := msgtx.TxHash(); mHash != history.txhash {
+			// revoked: the chain no longer holds the recorded transaction at this place
+			// (the node has reorganised, the wallet has not followed yet)
+			logging.CPrint(logging.WARN, "tx hash mismatch",
+				logging.LogFormat{
+					"expect": history.txhash.String(),
+					"actual": mHash.String(),
+					"wallet": history.walletId,
+					"height": history.blockHeight,
+				})
+			continue
+		}
 
 		indexToCredit, err := getCreditsByTxHashHeight(nsCredits, &history.txhash, history.blockHeight)
 		if err != nil {
